@@ -69,6 +69,8 @@ class MechStream:
         kind = l.ts_kind(bpv4)
         if ts is None:
             ts = utc(rng) if kind == 'utc' else ymd(rng)
+            if kind != 'utc' and getattr(self, 'safe_hours', False) and ts[3] in (1, 2, 3):
+                ts = ts[:3] + (rng.choice([0, 4, 12, 23]),) + ts[4:]      # zones with daylight saving: not the hours skipped / repeated at a transition
         if temp is None:
             temp = (rng.randrange(256), rng.randrange(256))
         return l.msop(self.blocks(**kw), ts=ts, temp=temp, bad_blk=bad_blk, model=model, bpv4=bpv4, rng=rng if noise else None)
@@ -198,6 +200,10 @@ class Scn:
         self.lines.append(s)
 
     def drv(self, i, l, cfg, answers=None):
+        if getattr(cfg, 'tzd', None):
+            import tzrules
+            cfg.tz = tzrules.std_offset(cfg.tzd)
+            self.lines.append(tzrules.line(cfg.tzd))
         self.lines.append(cfg.line(i, l))
         if answers is not None:
             self.lines.append(f'A {i} ' + ' '.join(str(a) for a in answers))
@@ -218,7 +224,7 @@ class Scn:
 
 def mixed_scenario(rng, L, tname, sname, cfg, answers=None, npk=None, malformed_p=0.25, badblk_p=0.12, difop_at=None, dual=None,
                    host=False, residual=True, temp_query=False, dev_query=False, big_steps=False, gap_p=0.05, start_az=None, step=None, seq0=None,
-                   dist=None, fov=None, rpm=None, zero_gap=False, tail_invalid_p=0.25, bpv4=None, reversal=None, model_seq=None):
+                   dist=None, fov=None, rpm=None, zero_gap=False, tail_invalid_p=0.25, bpv4=None, reversal=None, model_seq=None, host_base=1700000000000000):
     """one scenario: a DIFOP/MSOP stream for lidar `tname` with malformed packets interleaved"""
     l = L[tname]
     s = Scn(sname)
@@ -226,10 +232,11 @@ def mixed_scenario(rng, L, tname, sname, cfg, answers=None, npk=None, malformed_
     if dual is None:
         dual = rng.random() < 0.35
     if host:
-        s.add('H %d' % (1700000000000000 + rng.randrange(10 ** 9)))
-    hostv = 1700000123456789
+        s.add('H %d' % (host_base + rng.randrange(10 ** 9)))
+    hostv = host_base + 123456789
     if l.mech:
         ms = MechStream(rng, l, dual=dual, start_az=start_az, step=step)
+        ms.safe_hours = bool(getattr(cfg, 'tzd', None))
         if rpm is None:
             rpm = rng.choice([300, 600, 600, 1200, 0, 59, 61, 1500])
         if fov is None:
